@@ -34,25 +34,7 @@ import Gama.Model.Ls.Common
 import Gama.Model.Ls.Adj
 open Gama Gama.Proto Gama.Ls Gama.C04 Gama.C04.Full Gama.C04.AdjM
 
-/-! envelope facts (same layout as Driver/EnvState.lean) -/
-structure Info where
-  n : Nat
-  nullity : Nat
-  invp : Array Nat
-  width : Array Nat
-  rows : Array (List Nat)
-
-def Info.inEnvF (f : Info) (ii jj : Nat) : Bool :=
-  let hi := max ii jj
-  let lo := min ii jj
-  hi - lo ≤ f.width.getD (hi - 1) 0
-
-def Info.toInput (f : Info) (resolves : List Nat → Bool) : EnvInput :=
-  { n := f.n, nullity := f.nullity, invp := fun i => f.invp.getD (i - 1) 0,
-    inEnv := f.inEnvF, resolves := resolves,
-    qbbIn := fun i j =>
-      (f.rows.getD (i - 1) []).all fun k => (f.rows.getD (j - 1) []).all fun l =>
-        f.inEnvF (f.invp.getD (k - 1) 0) (f.invp.getD (l - 1) 0) }
+/-! envelope facts: `Gama.C04.Info`, `Info.toInput` (Model/EnvDenote.lean, shared with Driver/EnvState.lean) -/
 
 def parseInfo (ts : List String) : Option Info := do
   match ts with
@@ -227,8 +209,9 @@ def fInput (n nullity : Nat) : Full.Input := { n := n, nullity := nullity, resol
 def outsideF (inp : Full.Input) (s : FState) : Bool := inp.nullity != 0 && !inp.resolves (Full.eff inp s)
 def outsideS (inp : Full.Input) (s : SState) : Bool := inp.nullity != 0 && s.sub && !inp.resolves (s.list.getD [])
 
-def regFull (s : FState) : Reg := if s.useAll then .all else .subset (s.list.getD [])
-def regSvd (s : SState) : Reg := if s.sub then .subset (s.list.getD []) else .all
+/-- the configuration the object holds, as `full_answer_denotes` / `svd_answer_denotes` state it -/
+def regFull (s : FState) : Reg := cfgReg s.useAll s.list
+def regSvd (s : SState) : Reg := cfgReg (!s.sub) s.list
 
 def aInput (s : St) (p : Problem Float) : AInput :=
   let minx : Option (List Nat) := match p.reg with | .subset l => some l | _ => none
